@@ -62,11 +62,20 @@ def empty_range_exit(top, m):
 def nothing_to_do(top):
     """a path of clean_expired_values / dynamically_age / a purge that leaves at once because the container is empty: no loop, no
     state effect, returns 0 (literally or through a count that was initialised to 0 and never stepped)"""
-    if top.loops or top.state_effects():
+    if top.state_effects():
         return False
-    empty = any(lift.emptiness(c) is False for c in top.conds)
-    if not empty:
-        return False
+    if top.loops:
+        # the only loop is an effect-free scan of the expired prefix whose boundary the path found still at the head: nothing expired
+        bounds = scan_boundaries(top)
+        if len(top.loops) != 1 or len(bounds) != 1:
+            return False
+        (nm, lid), = bounds.keys()
+        if not any(c[0] == 'IT_AT_BEGIN' and c[2] is True and isinstance(c[1][0], tuple) and c[1][0][:3] == ('lv', nm, lid) for c in top.conds):
+            return False
+    else:
+        empty = any(lift.emptiness(c) is False for c in top.conds)
+        if not empty:
+            return False
     r = top.ret
     if r == ('int', 0):
         return True
@@ -253,3 +262,25 @@ def local_writes(seg, var, decl=None):
 def is_increment(e, var):
     v = e.val
     return isinstance(v, tuple) and v and v[0] == 'add' and v[2] == 1 and isinstance(v[1], tuple) and v[1][0] == 'lv' and v[1][1] == var[0]
+
+
+def ctor_sizes_field(paths, loc):
+    """the constructor gives the container member `loc` exactly `capacity` value-initialised elements: constructed with the capacity
+    argument in the member-initialiser list, or default-constructed and then resized once with it in the body"""
+    for p in paths:
+        init = None
+        calls = []
+        for e in p.trace:
+            if e[0] == 'init' and e[1] == loc:
+                init = e[2]
+            elif e[0] == 'call' and e[1] == loc:
+                calls.append(e)
+        if isinstance(init, tuple) and init and init[0] == 'ctor' and len(init[2]) >= 1 and init[2][0] == ('p', 'capacity'):
+            if any(c[2] in ('resize', 'assign', 'clear', 'push_back', 'emplace_back', 'pop_back', 'erase', 'insert', 'emplace') for c in calls):
+                return False
+            continue
+        empty = init is None or init == ('default',) or (isinstance(init, tuple) and init and init[0] == 'ctor' and not init[2])
+        sizing = [c for c in calls if c[2] in ('resize', 'assign', 'clear', 'push_back', 'emplace_back', 'pop_back', 'erase', 'insert', 'emplace')]
+        if not (empty and len(sizing) == 1 and sizing[0][2] == 'resize' and tuple(sizing[0][3]) == (('p', 'capacity'),)):
+            return False
+    return bool(paths)
